@@ -958,7 +958,7 @@ impl<'a> Tr<'a> {
                 let v = self.expr(&c.expr)?;
                 Ok(format!("let {} := {}\n{}", ident(&c.ident.to_string()), v, self.stmts(rest, k)?))
             }
-            Stmt::Item(Item::Fn(_)) => self.stmts(rest, k),
+            Stmt::Item(Item::Fn(_)) | Stmt::Item(Item::Use(_)) => self.stmts(rest, k),
             Stmt::Item(_) => Err("nested item unsupported".into()),
             Stmt::Macro(m) => {
                 let name = self.path_str(&m.mac.path);
